@@ -50,11 +50,23 @@ def ct_run(built, drv, timeout=30, max_steps=30_000_000):
         # (a) constructive: evaluate the condition on a few concrete secrets
         seen = {}
         vs = T.variables([c])
-        for it in range(6):
+        t_s = time.time()
+        for it in range(24):
+            if it >= 6 and time.time() - t_s > 30:
+                break
             env = {}
             for v_ in vs:
                 w_ = v_.w
-                env[v_.aux[0]] = rnd.choice([0, (1 << w_) - 1, rnd.getrandbits(w_), 1 << (w_ - 1), rnd.getrandbits(w_)])
+                if it == 0:
+                    env[v_.aux[0]] = 0
+                elif it == 1:
+                    env[v_.aux[0]] = (1 << w_) - 1
+                elif it == 2:
+                    env[v_.aux[0]] = 1 if v_.aux[0].endswith("0") else 0
+                elif it % 2:
+                    env[v_.aux[0]] = rnd.getrandbits(w_) & ((1 << w_) - 1 >> 1 if w_ == 8 and v_.aux[0].endswith("31") else (1 << w_) - 1)
+                else:
+                    env[v_.aux[0]] = rnd.choice([0, (1 << w_) - 1, rnd.getrandbits(w_), 1 << (w_ - 1), rnd.getrandbits(w_)])
             val = T.evaluate([c], env)[0] & 1
             seen.setdefault(val, env)
             if len(seen) == 2:
@@ -321,7 +333,7 @@ def misc_ct_drivers():
 
 QUICK_FIELDS = ["gf25519", "gfp256", "sc25519"]
 QUICK_CURVES = ["ed25519", "p256"]
-QUICK_MISC = ["drv_ct_x25519", "drv_ct_ed25519_sign", "drv_ct_ed25519_keygen", "drv_ct_sha256"]
+QUICK_MISC = ["drv_ct_x25519", "drv_ct_ed25519_sign", "drv_ct_ed25519_keygen", "drv_ct_sha256", "drv_ct_jq255e_sign", "drv_ct_jq255e_ecdh"]
 # entries that reach documented variable-time code or exceed the executor's budget (measured)
 SKIP = set()
 
